@@ -143,6 +143,38 @@ def _init(h, g):
             h.oblige(f"fan speed {f} does not exist in this generation and is never offered", h.eq(h.contains(sf, api_f), False))
     h.oblige("name / id", And(h.eq(h.prop(ac, "name").value, "UNIT"), h.eq(h.prop(ac, "ac_id").value, E.number)))
     h.oblige("before the first report there is no error information", h.is_none(h.prop(ac, "error_info").value))
+    # an AC built with zones: it listens to every one of them (zone changes reach the AC's subscribers, C12) and lists them
+    log = []
+    if h.symbolic:
+        from pyvc.values import Builtin as _B, BoundMethod as _BM
+
+        class ZoneStub:
+            def __init__(self, k):
+                self.k = k
+
+            def py_truth(self, it):
+                return True
+
+            def py_getattr(self, it, name):
+                if name == "subscribe":
+                    return _B("zone.subscribe", lambda cb: log.append((self.k, cb)))
+                raise it.exc("AttributeError", name)
+        is_zone_updated = lambda cb, a: isinstance(cb, _BM) and cb.func.name == "_zone_updated" and cb.self_obj is a  # noqa: E731
+    else:
+        class ZoneStub:
+            def __init__(self, k):
+                self.k = k
+
+            def subscribe(self, cb):
+                log.append((self.k, cb))
+        is_zone_updated = lambda cb, a: getattr(cb, "__func__", None) is type(a)._zone_updated and cb.__self__ is a  # noqa: E731
+    zs = [ZoneStub(0), ZoneStub(1)]
+    r2 = h.call(G["api"] + ":" + G["ac"], E.number, zs, E.ability, E.sock)
+    h.oblige("an AC subscribes its own _zone_updated to each of its zones, once (zone changes reach the AC's general subscribers)",
+             And(r2.ok, [k for k, _ in log] == [0, 1], all(is_zone_updated(cb, r2.value) for _, cb in log) if r2.ok else False))
+    if r2.ok:
+        got = h.elems(h.prop(r2.value, "zones").value)
+        h.oblige("zones lists exactly the zones it was built with, in order", And(len(got) == 2, all(a is b for a, b in zip(got, zs))))
     h.cover("init explored")
 
 
@@ -622,7 +654,7 @@ def _register(g):
                "target_temperature", "target_temperature_resolution", "min_target_temperature", "max_target_temperature",
                "spill_state", "error_info"]
     A = ["round(): correctly rounded, ties to even (CPython)", "floats treated as exact reals (decifloat abstraction)"]
-    oset(n + ".init", ["C09", "C10", "C11", "C19"], [_fn(g, "__init__")])(lambda h: _init(h, g))
+    oset(n + ".init", ["C09", "C10", "C11", "C12", "C19"], [_fn(g, "__init__")])(lambda h: _init(h, g))
     oset(n + ".getters", ["C10", "C19", "C04", "C11"], [_fn(g, x) for x in getters])(lambda h: _getters(h, g))
     oset(n + ".next_quick_timer", ["C10", "C19"], [_fn(g, "next_quick_timer")])(lambda h: _timer_getter(h, g))
     oset(n + ".update_ac_status", ["C10", "C12", "C02", "C14", "C19"], [_fn(g, "update_ac_status")],
